@@ -21,6 +21,31 @@ func zzEntryText(e klog.Entry) string {
 		func(o klog.OpenRange) string { return o.ToString() })
 }
 
+// zzSameEntryFacts compares two entries through their accessors (kind, minute values,
+// clock convention, dash spacing, placeholder length) - independently of ToString, which
+// both sides of a print round trip share.
+func zzSameEntryFacts(x, y klog.Entry) bool {
+	type facts struct {
+		kind, a, b, ph   int
+		a24, b24, spaces bool
+	}
+	get := func(e klog.Entry) facts {
+		return klog.Unbox[facts](&e,
+			func(r klog.Range) facts {
+				return facts{2, r.Start().MidnightOffset().InMinutes(), r.End().MidnightOffset().InMinutes(), 0,
+					r.Start().Format().Use24HourClock, r.End().Format().Use24HourClock, r.Format().UseSpacesAroundDash}
+			},
+			func(d klog.Duration) facts { return facts{kind: 1, a: d.InMinutes()} },
+			func(o klog.OpenRange) facts {
+				return facts{3, o.Start().MidnightOffset().InMinutes(), 0, o.Format().AdditionalPlaceholderChars,
+					o.Start().Format().Use24HourClock, false, o.Format().UseSpacesAroundDash}
+			})
+	}
+	fx, fy := get(x), get(y)
+	return zz.And(fx.kind == fy.kind, zz.And(zz.And(fx.a == fy.a, fx.b == fy.b), zz.And(fx.ph == fy.ph,
+		zz.And(zz.Iff(fx.a24, fy.a24), zz.And(zz.Iff(fx.b24, fy.b24), zz.Iff(fx.spaces, fy.spaces))))))
+}
+
 // ZZ_C09_PrintRoundtrip: for every conforming generated document, the unstyled
 // print output parses to the same records with the same notation, and printing
 // that again reproduces it.
@@ -51,6 +76,7 @@ func ZZ_C09_PrintRoundtrip() {
 			if len(a.Entries()) == len(b.Entries()) {
 				for j := range a.Entries() {
 					zz.Assert(zzEntryText(a.Entries()[j]) == zzEntryText(b.Entries()[j]), "entry-notation-kept")
+					zz.Assert(zzSameEntryFacts(a.Entries()[j], b.Entries()[j]), "entry-value-and-notation-kept")
 				}
 			}
 		}
@@ -148,7 +174,7 @@ func ZZ_C09_PrintValues() {
 		text += "    " + []string{"", "<"}[zz.Choose(2)] + zzC09Digits("sh", 2) + ":" + []string{"00", "07", "59"}[zz.Choose(3)] + dash +
 			zzC09Digits("eh", 2) + ":" + []string{"00", "59"}[zz.Choose(2)] + []string{"", ">"}[zz.Choose(2)] + "\n"
 	case 1:
-		text += "    " + zzC09Digits("sh", 1) + ":" + zzC09Digits("sm", 2) + []string{"", "am", "pm"}[zz.Choose(3)] +
+		text += "    " + []string{"", "<"}[zz.Choose(2)] + []string{"", "1"}[zz.Choose(2)] + zzC09Digits("sh", 1) + ":" + zzC09Digits("sm", 2) + []string{"", "am", "pm"}[zz.Choose(3)] +
 			[]string{" - ", "-"}[zz.Choose(2)] + []string{"?", "??", "???"}[zz.Choose(3)] + "\n"
 	case 2:
 		text += "    " + []string{"", "-", "+"}[zz.Choose(3)] + zzC09Digits("h", 2) + "h" + zzC09Digits("m", 2) + "m\n"
@@ -207,6 +233,7 @@ func ZZ_C09_PrintValues() {
 		for j := range a.Entries() {
 			zz.Assert(zzEntryText(a.Entries()[j]) == zzEntryText(b.Entries()[j]), "entry-notation-kept")
 			zz.Assert(a.Entries()[j].Duration().InMinutes() == b.Entries()[j].Duration().InMinutes(), "entry-value-kept")
+			zz.Assert(zzSameEntryFacts(a.Entries()[j], b.Entries()[j]), "entry-value-and-notation-kept")
 			la, lb := a.Entries()[j].Summary().Lines(), b.Entries()[j].Summary().Lines()
 			same := len(la) == len(lb)
 			for k := 0; same && k < len(la); k++ {
